@@ -23,20 +23,38 @@ pub const SLACK_Q_ABOVE_PMF: f64 = 1.5;
 
 fn judge_proportion(n: usize, seed: u64, l: &mut Local) {
     // intervals for every outcome, per confidence
+    // Call order matters for an implementation with hidden state (caches keyed on part of the
+    // confidence): for even n all kinds are queried per outcome k and level in turn (lower, two-sided,
+    // upper at the same level back to back), for odd n one confidence at a time.
     let mut table: Vec<(Kind, f64, Vec<Option<Obs>>)> = vec![];
     for kind in KINDS {
         for level in LEVELS {
-            let c = conf(kind, level);
-            let row: Vec<Option<Obs>> = (0..=n)
-                .map(|k| {
-                    l.eval();
-                    match call(|| proportion::ci(c, n, k)) {
-                        Out::Ok(i) => Some(Obs::of64(&i)),
-                        _ => None, // an error does not cover
-                    }
-                })
-                .collect();
-            table.push((kind, level, row));
+            table.push((kind, level, vec![None; n + 1]));
+        }
+    }
+    let ask = |kind: Kind, level: f64, k: usize, l: &mut Local| -> Option<Obs> {
+        l.eval();
+        match call(|| proportion::ci(conf(kind, level), n, k)) {
+            Out::Ok(i) => Some(Obs::of64(&i)),
+            _ => None, // an error does not cover
+        }
+    };
+    if n % 2 == 0 {
+        l.count("proportion: kinds interleaved at the same level");
+        for k in 0..=n {
+            for (li, level) in LEVELS.iter().enumerate() {
+                for kind in [Kind::Lower, Kind::Two, Kind::Upper] {
+                    let ti = KINDS.iter().position(|x| *x == kind).unwrap() * LEVELS.len() + li;
+                    table[ti].2[k] = ask(kind, *level, k, l);
+                }
+            }
+        }
+    } else {
+        for ti in 0..table.len() {
+            let (kind, level) = (table[ti].0, table[ti].1);
+            for k in 0..=n {
+                table[ti].2[k] = ask(kind, level, k, l);
+            }
         }
     }
     // p-grid over the region n p >= 10 and n (1-p) >= 10
@@ -136,8 +154,22 @@ fn judge_quantile(n: usize, seed: u64, l: &mut Local) {
                 cdf[b.min(n) + 1] - cdf[a.min(n + 1)]
             }
         };
-        for kind in KINDS {
+        let mut order: Vec<(Kind, f64)> = vec![];
+        if n % 2 == 0 {
             for level in LEVELS {
+                for kind in [Kind::Upper, Kind::Two, Kind::Lower] {
+                    order.push((kind, level));
+                }
+            }
+        } else {
+            for kind in KINDS {
+                for level in LEVELS {
+                    order.push((kind, level));
+                }
+            }
+        }
+        for (kind, level) in order {
+            {
                 let c = conf(kind, level);
                 l.eval();
                 let out = call(|| quantile::ci_indices(c, n, q));
@@ -192,6 +224,7 @@ pub fn run(run: &Arc<Run>) {
     } else {
         // ladder of ~60 values up to 5000
         let mut v: Vec<usize> = vec![21, 22, 23, 24, 25, 26, 27, 28, 29, 30, 32, 35, 37, 40, 45, 50, 55, 60, 64, 70, 75, 80, 90, 100, 101, 120, 128, 150, 175, 200, 250, 256, 300, 365, 400, 500, 600, 700, 800, 900, 1000, 1024, 1200, 1500, 1700, 2000, 2500, 3000, 3500, 4000, 4500, 5000];
+        v.extend(21..=300usize);
         let mut r = Rng::from(&[seed, 0xc12b]);
         for _ in 0..8 {
             v.push(r.range(21, 3000) as usize);
@@ -233,6 +266,6 @@ pub fn run(run: &Arc<Run>) {
             judge_quantile(n, seed, l)
         }
     });
-    run.require(&["proportion average coverage judged", "quantile coverage judged"]);
+    run.require(&["proportion average coverage judged", "quantile coverage judged", "proportion: kinds interleaved at the same level"]);
     let _: Option<Value> = None;
 }
